@@ -60,6 +60,7 @@ func HarnessC14Loop() {
 		return false, 0
 	}
 	payload := new(int)
+	var started int64
 	calls := 0
 	samePayload := true
 	fn := func(ctx context.Context) error {
@@ -73,12 +74,16 @@ func HarnessC14Loop() {
 		if payload == nil {
 			samePayload = false
 		}
+		if calls == 0 {
+			// the loop's own start reading (nothing reads the clock in between)
+			started = vndClockPeek()
+		}
 		o := seq[calls]
 		calls++
 		return o.err
 	}
 	// waitFunc model: records the delay; may report a cancelled context
-	var waits []time.Duration
+	var waits, elapsedAtWait []time.Duration
 	ctxErrAt := -1
 	if vndChoice(2) == 1 {
 		ctxErrAt = vndChoice(n)
@@ -86,6 +91,8 @@ func HarnessC14Loop() {
 	orig := waitFunc
 	waitFunc = func(ctx context.Context, d time.Duration) error {
 		waits = append(waits, d)
+		// the loop's last reading of the elapsed time
+		elapsedAtWait = append(elapsedAtWait, time.Duration(vndClockPeek()-started))
 		if len(waits)-1 == ctxErrAt {
 			return context.Canceled
 		}
@@ -101,6 +108,9 @@ func HarnessC14Loop() {
 		vndAssert(w >= seq[i].throttle, "never-waits-less-than-the-server-supplied-delay")
 		if cfg.MaxElapsedTime != 0 {
 			vndAssert(seq[i].throttle <= cfg.MaxElapsedTime, "never-waits-for-a-delay-beyond-the-maximum-elapsed-time")
+			// the wait itself ends within the maximum elapsed time (as far as the
+			// loop's last clock reading can tell)
+			vndAssert(elapsedAtWait[i]+w <= cfg.MaxElapsedTime, "never-blocks-beyond-the-maximum-elapsed-time")
 		}
 	}
 	vndAssert(len(waits) == calls-1 || len(waits) == calls, "one-wait-between-consecutive-attempts")
